@@ -229,7 +229,11 @@ class Run:
         self.objs = {}
         self.schema = {}
         for o in desc['objects']:
-            cls = make_class(o['cls'], o.get('writable', []))
+            if o.get('cmd'):
+                from .c17 import get_class
+                cls = get_class(o['cls'])
+            else:
+                cls = make_class(o['cls'], o.get('writable', []))
             kwargs = {'objectIdentifier': (cls.objectType, o['inst']), 'objectName': o['name']}
             obj = cls(**kwargs)
             for pid, spec in sorted(o.get('init', {}).items()):
@@ -240,6 +244,8 @@ class Run:
                 obj.WriteProperty(pid, v, direct=True)
             self.dev.app.add_object(obj)
             self.objs[o['name']] = obj
+        # the device object itself (also addressed by the wildcard instance 4194303)
+        self.objs['DEV'] = self.dev.device
         # hook the responses the device emits (encoded service data)
         smap = self.dev.smap
         orig = smap.sap_confirmation
@@ -292,6 +298,10 @@ class Run:
         return r
 
     def build_any(self, op):
+        if op['value'][0] == 'null':
+            a = Any()
+            a.cast_in(Null(()))
+            return a
         if op.get('wrong'):
             return foreign_any(op['value'])
         dt = self.datatype_of(op)
@@ -309,6 +319,9 @@ class Run:
         return a
 
     def datatype_of(self, op):
+        if op['obj'][0] == 'device':
+            p = self.dev.device._properties.get(op['prop'])
+            return p.datatype if p else None
         for o in self.desc['objects']:
             if [self.objs[o['name']].objectIdentifier[0], o['inst']] == [op['obj'][0], op['obj'][1]]:
                 p = self.objs[o['name']]._properties.get(op['prop'])
@@ -366,6 +379,14 @@ WRONG_TYPE_SET = {('error', 'property', 'invalidDataType'), ('reject', 'invalidP
                   ('error', 'property', 'valueOutOfRange'), ('reject', 'parameterOutOfRange'), ('reject', 'inconsistentParameters')}
 
 
+def DEVICE_PROPS(run):
+    """plain stored properties of the device object the harness configured itself"""
+    cfg = run.dev.cfg
+    return {'vendorIdentifier': ['uns', VENDOR], 'maxApduLengthAccepted': ['uns', cfg.get('maxApdu', 1024)], 'numberOfApduRetries': ['uns', cfg.get('retries', 3)],
+            'apduTimeout': ['uns', cfg.get('tout', 3000)], 'apduSegmentTimeout': ['uns', cfg.get('tseg', 1000)], 'maxSegmentsAccepted': ['uns', cfg.get('maxSegs', 64)],
+            'segmentationSupported': ['enum', cfg.get('seg', 'segmentedBoth')]}
+
+
 class Store:
     """dict (object name, property) -> value spec, plus the declarative schema from the property tables"""
 
@@ -379,9 +400,17 @@ class Store:
             self.by_id[(obj.objectIdentifier[0], obj.objectIdentifier[1])] = (o, obj)
             for pid, spec in o.get('init', {}).items():
                 self.vals[(o['name'], pid)] = spec
+        dev = run.dev.device
+        devo = {'name': 'DEV', 'cls': 'LocalDeviceObject', 'inst': dev.objectIdentifier[1], 'init': DEVICE_PROPS(run)}
+        self.by_id[('device', dev.objectIdentifier[1])] = (devo, dev)
+        self.device_key = ('device', dev.objectIdentifier[1])
+        for pid, spec in devo['init'].items():
+            self.vals[('DEV', pid)] = spec
 
     def lookup(self, objid):
         t, n = objid
+        if t == 'device' and n == 4194303:
+            return self.by_id[self.device_key]
         if isinstance(t, int):
             for (tt, nn), v in self.by_id.items():
                 if nn == n and bobj.ObjectType.enumerations.get(tt) == t:
@@ -429,6 +458,8 @@ class Store:
         if p is None:
             return {ERR('property', 'unknownProperty')}, None
         key = (o['name'], op['prop'])
+        if o.get('cmd') and op.get('idx') is None:
+            return {'*'}, None
         if key in self.unmodelled:
             return {'*'}, None
         if key not in self.vals and op['prop'] not in COMPUTED:
@@ -574,6 +605,14 @@ def check(run, res):
                 viol('C15.b', 'store-diverged', 'at the end of the run %s.%s holds %r, the reference store says %r' % (oname, pid, cur, spec), prop=pid)
         except Exception as e:
             viol('C15.b', 'store-unreadable', 'at the end of the run %s.%s cannot be read back: %r' % (oname, pid, e), prop=pid)
+    for o in desc['objects']:
+        if o.get('cmd'):
+            obj = run.objs[o['name']]
+            pa = obj.priorityArray
+            for i_ in range(1, 17):
+                if pa[i_].null is None:
+                    viol('C15.b', 'refused-write-changed-priority-array', 'at the end of the run slot %d of %s.priorityArray is occupied although every write the harness sent to it carried an array index and had to be refused' % (i_, o['name']))
+                    break
     w.probes['indications'] = n_ind
     return out
 
@@ -724,6 +763,8 @@ def gen_desc(seed, idx):
                 cands.append((pid, p, kd))
         cands.sort(key=lambda x: x[0])
         rng.shuffle(cands)
+        # variable-length arrays and lists first: they are rare and carry the resize / element semantics
+        cands.sort(key=lambda x: 0 if (x[2].startswith('list:') or (x[2].startswith('array:') and getattr(x[1].datatype, 'fixed_length', None) is None)) else 1)
         chosen = cands[:rng.randint(2, min(8, len(cands)))]
         writable = [c[0] for c in chosen if rng.random() < 0.6]
         init = {}
@@ -737,6 +778,11 @@ def gen_desc(seed, idx):
         # a few properties the harness did not touch (read-only, maybe without value)
         for (pid, p, kd) in cands[len(chosen):len(chosen) + 2]:
             catalog.append((k, pid, p.datatype, kd, False, False))
+    # a commandable object: writes to its (non-array) present value carrying an array index must be refused and change nothing
+    has_cmd = rng.random() < 0.4
+    if has_cmd:
+        objects.append({'cls': 'AnalogValueCmdObject', 'inst': 77, 'name': 'cmd0', 'writable': [], 'init': {}, 'type': 'analogValue', 'cmd': True})
+    dev_props = ['vendorIdentifier', 'maxApduLengthAccepted', 'numberOfApduRetries', 'apduTimeout', 'apduSegmentTimeout', 'maxSegmentsAccepted', 'segmentationSupported']
     nops = rng.randint(5, 60)
     ops = []
     all_props = sorted(PropertyIdentifier.enumerations)
@@ -805,6 +851,28 @@ def gen_desc(seed, idx):
         op['c'] = 0 if op['op'] == 'wp' else rng.choice([0, 0, 1])
         op['gap'] = rng.choice([0.0, 0.0, 0.01, 1.0])
         ops.append(op)
+        # read back what was (or was not) written: whole value, length, first / last / one-past element
+        if op['op'] == 'wp' and 'prop' in op and rng.random() < 0.6:
+            for i_ in ([None, 0, 1, 2, 9] if kd.startswith('array:') else [None]):
+                if rng.random() < 0.7:
+                    r_ = {'op': 'rp', 'obj': op['obj'], 'prop': op['prop'], 'c': 0, 'gap': 0.0}
+                    if i_ is not None:
+                        r_['idx'] = i_
+                    ops.append(r_)
+            if rng.random() < 0.3:
+                ops.append({'op': 'rpm', 'specs': [{'obj': op['obj'], 'refs': [{'prop': op['prop']}, {'prop': op['prop'], 'idx': 0}]}], 'c': 0, 'gap': 0.0})
+        # the device object, by its identifier and by the wildcard instance
+        if rng.random() < 0.12:
+            did = ['device', rng.choice([4194303, 1020])]
+            pr = rng.choice(dev_props)
+            if rng.random() < 0.5:
+                ops.append({'op': 'rp', 'obj': did, 'prop': pr, 'c': 0, 'gap': 0.0})
+            else:
+                ops.append({'op': 'rpm', 'specs': [{'obj': did, 'refs': [{'prop': pr}, {'prop': rng.choice(dev_props)}] + ([{'prop': rng.choice(['all', 'required', 'optional'])}] if rng.random() < 0.3 else [])}], 'c': 0, 'gap': 0.0})
+        if has_cmd and rng.random() < 0.1:
+            ops.append({'op': 'wp', 'obj': ['analogValue', 77], 'prop': 'presentValue', 'value': rng.choice([['real', 5.0], ['null']]), 'idx': rng.choice([1, 3, 8, 16]),
+                        'prio': rng.choice([None, 8]), 'c': 0, 'gap': 0.0})
+            ops.append({'op': 'rp', 'obj': ['analogValue', 77], 'prop': 'presentValue', 'c': 0, 'gap': 0.0})
     tout, tseg = 2.0, 0.5
     faults = fault_profile(rng, tout, tseg, allow_none=0.4)
     return {'prop': 'C15', 'seed': H(seed, 'C15run', idx) & 0x7fffffff, 'objects': objects, 'ops': ops, 'nclients': rng.choice([1, 2]),
